@@ -116,6 +116,38 @@ CHECKS.update({
         'DESIGN.md section 4 C10'),
 })
 
+CHECKS.update({
+    'C12': (
+        'Coq proof (argmax of the running valid count = last valid layer; orientation independence through the normalisation model; static floor) + vm_compute correspondence',
+        'Theorems C12_* prove for every column (any length, gaps, fully dry) that the index computed as coded (cumsum of the '
+        'validity indicator with NaN skipped, argmax with first-maximum tie-break) is the last layer holding data, or 0 with a '
+        'missing result when nothing is valid; that for each of the four encodings {up, down} x {deep-first, surface-first} of '
+        'the same physical column normalise-then-reduce returns the floor value of the physical column; and that under a '
+        'static floor the index taken from the reference variable is every variable\'s own floor (with the moving-floor '
+        'behaviour documented by a _refuted witness).  Per run: generated datasets of every convention with one or two depth '
+        'dimensions, one or two coordinates per dimension, every orientation, variables on every grid kind with the depth '
+        'dimension anywhere, floors from dry to fully wet with gaps, through operations.depth.ocean_floor and the accessor; '
+        'every reduced column is compared with the deepest physically valid value and with the model; untouched variables, '
+        'removed depth dimensions / coordinates, unchanged polygons and purity are checked on the implementation.',
+        'Trusted: Coq kernel; model Depth.v (xarray cumsum(skipna) / argmax / isel semantics modelled).  The grouping of '
+        'variables by spatial dimension set is exercised, not modelled.',
+        'DESIGN.md section 4 C12'),
+    'C13': (
+        'Coq proof (loop invariant over the depth coordinates of a dimension: rows, physical depths and bounds reversed together; order; idempotence) + vm_compute correspondence',
+        'Theorems C13_* prove for any number of depth coordinates sharing a dimension that normalisation keeps or reverses the '
+        'data rows, every coordinate\'s physical depths and its bounds together, records the requested sign, and for a '
+        'monotone coordinate with >= 2 levels establishes the requested order, is idempotent, never fails, and is the identity '
+        'when both options are unset.  Per run all 9 option pairs are applied (twice) to generated datasets of every '
+        'convention (positive attribute present / guessed, bounds, dimension coordinate or not, a second coordinate on the '
+        'same dimension), through the function and the accessor; coordinates, attributes, bounds and level tags are diffed '
+        'against the model, and sign, order, association of data with physical depth, bounds, idempotence and purity are '
+        'evaluated directly on the implementation.',
+        'Trusted: Coq kernel; model Depth.v.  C13_order / C13_idempotent are stated for a dimension with one depth '
+        'coordinate (with several, the last one processed decides the order - the multi-coordinate loop is covered by '
+        'C13_association and by correspondence).',
+        'DESIGN.md section 4 C13'),
+})
+
 NOT_YET = 'check not built yet in this session (work in progress; the design in DESIGN.md section 4 applies)'
 
 
